@@ -278,7 +278,7 @@ PROPS = {
     },
     "C13": {
         "lean_modules": ['HotstuffModel.Properties.C13'],
-        "engines": [{'name': 'netsim'}, {'name': 'mempoolsync'}],
+        "engines": [{'name': 'netsim'}, {'name': 'mempoolsync'}, {'name': 'cons'}],
         "level": "proof",
         "level_text": 'PARTIAL: machine-checked pipeline lemmas + whole-system simulation on the real code.',
         "trusted_base": TB_COMMON + [
